@@ -15,5 +15,13 @@ import json
 d=json.load(open('target/run/setup-emit.json'))
 print(' '.join('--bin '+s['bin'] for s in d['shards'] if s['family'] not in ('kinds','slice') and s['grammars']))")
 (cd engines/harness && cargo build --offline --release $BINS)
+# second configuration: pest's grammar-extras on everywhere (own target directory, shards x_*)
+(cd engines && cargo build --offline --release -p vgen --features vgen/extras --target-dir "$CARGO_TARGET_DIR/x")
+./target/x/release/vgen --cmd emit --shards 16 --tier quick --seed 1 --out target/run/setup-emit-x.json
+XBINS=$(python3 -c "
+import json
+d=json.load(open('target/run/setup-emit-x.json'))
+print(' '.join('--bin '+s['bin'] for s in d['shards'] if s['grammars']))")
+(cd engines/harness && cargo build --offline --features extras --target-dir "$CARGO_TARGET_DIR/x" $XBINS)
 (cargo build --offline --manifest-path engines/probes/inherited/Cargo.toml >/dev/null 2>&1 || true)
 echo "setup done"
